@@ -240,6 +240,17 @@ func C17RacePass() {
 			defer wg.Done()
 			for i := 0; i < 30; i++ {
 				bodies[(g+i)%len(bodies)].Run(func() {})
+				// a program with jumps whose code (hash) no other execution of this process has: anything cached
+				// per code by the package is cold here, on every goroutine at once
+				a := asm.New().Push(uint64(0x10000 + g<<8 + i)).Op(asm.POP) // PUSH3 x POP: bytes 0-4
+				a.Push(8).Op(asm.JUMP, asm.JUMPDEST)                         // 5-8
+				a.Push(1).Push(15).Op(asm.JUMPI, asm.INVALID, asm.JUMPDEST)  // 9-15
+				a.Push(0).Push(0).Op(asm.RETURN)
+				cs := gen.StdCase(world.Shanghai, a.Bytes(), "call", 100000)
+				env := world.NewA(cs, world.AOpts{})
+				if obs := env.Invoke(cs); obs.Err != "" {
+					panic("race pass: jump program failed: " + obs.Err)
+				}
 			}
 		}()
 	}
@@ -392,7 +403,13 @@ func init() {
 					return
 				}
 				w.Extra("race_pass_runs", 1)
-				if strings.Contains(string(out), "DATA RACE") {
+				if strings.Contains(string(out), "fatal error: concurrent map") {
+					txt := string(out)
+					if len(txt) > 3000 {
+						txt = txt[:3000]
+					}
+					w.Violate("race:concurrent_map_access", "the free-running pass was aborted by the Go runtime (instances on separate states share a map):\n"+txt, map[string]any{"racepass": true})
+				} else if strings.Contains(string(out), "DATA RACE") {
 					txt := string(out)
 					if len(txt) > 3000 {
 						txt = txt[:3000]
